@@ -292,6 +292,18 @@ void h_mem_splice(void)
     VPOST(post_splice(ubuf, offset, size, ret));
     VCANARY();
 }
+/* the manager's splice called as ubuf_block_splice calls it (block unit: segment, offset inside it, normalised size) */
+void h_mem_splice_direct(void)
+{
+    BUILD_CHAIN();
+    VIN(int, offset); VIN(int, size);
+    VASSUME(offset >= 0 && (size_t)offset < g_o.size[0]);            /* ubuf_block_get resolved the position into the first segment */
+    VASSUME(size >= 0 && H_range(g_o.total, offset, size));          /* ubuf_block_splice normalises -1 and only asks for ranges inside the block (block unit, post_splice) */
+    struct ubuf *ret = NULL;
+    int err = ubuf_block_mem_splice(ubuf, &ret, offset, size);
+    VPOST(post_splice(ubuf, offset, size, err == UBASE_ERR_NONE ? ret : NULL));
+    VCANARY();
+}
 void h_mem_free(void)
 {
     BUILD_CHAIN();
